@@ -178,7 +178,7 @@ func (s *scn) twinCheck(h uint64, ev *pb.CommitEvent, txs []*pb.BxhTransaction, 
 		if pick < len(ll) {
 			ll[pick] = true // the neutral transaction must fail for its empty payload only
 		}
-		tr, err := t.execute(&pb.CommitEvent{Block: nb, LocalList: ll}, 30*time.Second)
+		tr, err := t.execute(&pb.CommitEvent{Block: nb, LocalList: ll}, 12*time.Second)
 		if err != nil {
 			s.res.Aborted = "twin: " + err.Error()
 			return
@@ -237,7 +237,7 @@ func (s *scn) twinCheck(h uint64, ev *pb.CommitEvent, txs []*pb.BxhTransaction, 
 	}
 	// bring the twin to the real block (after a neutralised block this goes through the executor's
 	// height-mismatch path: roll back one block, execute the real one)
-	tr, err := t.execute(ev, 30*time.Second)
+	tr, err := t.execute(ev, 12*time.Second)
 	if err != nil {
 		s.res.Aborted = "twin resync: " + err.Error()
 		return
